@@ -947,6 +947,21 @@ func TestVerifC11(t *testing.T) {
 		"classification of a missed duplicate (which shortcut fired) reads internals through accessor functions; the verdict itself comes from the model only")
 
 	if ev.Replaying() {
+		var probe struct {
+			Place string `json:"place"`
+		}
+		ev.ReplayCase(&probe)
+		if probe.Place != "" { // a service-level scenario
+			var sc c11SvcCase
+			ev.ReplayCase(&sc)
+			c11SvcRun(t, r, sc, &c11SvcStats{})
+			r.States(1)
+			r.Transitions(1)
+			r.Traces(1)
+			r.Sample(sc)
+			r.Finish(false)
+			return
+		}
 		var c c11Case
 		ev.ReplayCase(&c)
 		st := &c11Stats{}
@@ -964,6 +979,8 @@ func TestVerifC11(t *testing.T) {
 		return
 	}
 
+	// service-level family first (small, always completed)
+	svcScenarios, svcBlocks := c11ServiceFamily(t, r)
 	defer debug.SetGCPercent(debug.SetGCPercent(400))
 	cfgs := c11Configs(r)
 	st := &c11Stats{}
@@ -997,9 +1014,9 @@ func TestVerifC11(t *testing.T) {
 		smu.Unlock()
 	})
 	_ = t0
-	r.States(int(states))
-	r.Transitions(int(transitions))
-	r.Traces(int(traces))
+	r.States(int(states) + svcBlocks)
+	r.Transitions(int(transitions) + svcBlocks)
+	r.Traces(int(traces) + svcScenarios)
 	r.Set("configurations", len(cfgs))
 	r.Set("configurations_reaching_fixpoint", fixpoints)
 	r.Set("max_depth_completed", maxDepthDone)
